@@ -51,6 +51,7 @@ Inductive call :=
 | CClose                      (* owner calls close() *)
 | CDisableBuf | CEnableBuf
 | CFail                       (* from now on every transport write fails *)
+| CStall                      (* from now on the peer reads nothing: a transport write or shutdown never completes *)
 | CFeed (ev : inev)           (* bytes of one incoming frame / EOF / error reach recv_loop *)
 | CSend (payload : bytes)     (* Stream::send_data / poll_write on this task's stream: push into the session's channel *)
 | CPump.                      (* process_stream_data: the first call takes the receiver, every further call is one
@@ -102,7 +103,8 @@ Record state := {
   dq : list witem;                  (* the unbounded channel stream_data_tx -> rx: (sender task, data frame) *)
   pushed : list witem;              (* ghost: every successful push, in order *)
   pump_owner : option tid;          (* the task that took the receiver (process_stream_data) *)
-  pump_done : bool                  (* that task has returned: the receiver is dropped, sends fail *)
+  pump_done : bool;                 (* that task has returned: the receiver is dropped, sends fail *)
+  stalled : bool                    (* the peer has stopped reading: every transport write / shutdown stays pending *)
 }.
 
 Definition rtid : tid := 0%nat.
@@ -119,7 +121,7 @@ Definition set_tasks (s : state) (ts : tid -> task) : state :=
   {| buffering := buffering s; pending := pending s; wr := wr s; waiters := waiters s; pkt := pkt s;
      wire := wire s; closed := closed s; shut := shut s; failing := failing s; next_sid := next_sid s;
      table := table s; rtable := rtable s; ralive := ralive s; tasks := ts; lin := lin s;
-     dq := dq s; pushed := pushed s; pump_owner := pump_owner s; pump_done := pump_done s |}.
+     dq := dq s; pushed := pushed s; pump_owner := pump_owner s; pump_done := pump_done s; stalled := stalled s |}.
 Definition set_task (s : state) (t : tid) (v : task) : state := set_tasks s (upd (tasks s) t v).
 
 Definition with_pc (x : task) (p : pc) : task :=
@@ -157,7 +159,7 @@ Definition set_pump (s : state) (q pu : list witem) (o : option tid) (d : bool) 
   {| buffering := buffering s; pending := pending s; wr := wr s; waiters := waiters s; pkt := pkt s;
      wire := wire s; closed := closed s; shut := shut s; failing := failing s; next_sid := next_sid s;
      table := table s; rtable := rtable s; ralive := ralive s; tasks := tasks s; lin := lin s;
-     dq := q; pushed := pu; pump_owner := o; pump_done := d |}.
+     dq := q; pushed := pu; pump_owner := o; pump_done := d; stalled := stalled s |}.
 Definition set_pump_done (s : state) : state := set_pump s (dq s) (pushed s) (pump_owner s) true.
 Definition set_dq (s : state) (q : list witem) : state := set_pump s q (pushed s) (pump_owner s) (pump_done s).
 
@@ -175,39 +177,47 @@ Definition set_flags (s : state) (b c sh fl ra : bool) : state :=
   {| buffering := b; pending := pending s; wr := wr s; waiters := waiters s; pkt := pkt s;
      wire := wire s; closed := c; shut := sh; failing := fl; next_sid := next_sid s;
      table := table s; rtable := rtable s; ralive := ra; tasks := tasks s; lin := lin s;
-     dq := dq s; pushed := pushed s; pump_owner := pump_owner s; pump_done := pump_done s |}.
+     dq := dq s; pushed := pushed s; pump_owner := pump_owner s; pump_done := pump_done s; stalled := stalled s |}.
 Definition set_buffering (s : state) (b : bool) := set_flags s b (closed s) (shut s) (failing s) (ralive s).
 Definition set_closed (s : state) := set_flags s (buffering s) true (shut s) (failing s) (ralive s).
 Definition set_shut (s : state) := set_flags s (buffering s) (closed s) true (failing s) (ralive s).
 Definition set_failing (s : state) := set_flags s (buffering s) (closed s) (shut s) true (ralive s).
 Definition set_rdead (s : state) := set_flags s (buffering s) (closed s) (shut s) (failing s) false.
+Definition set_stalled (s : state) : state :=
+  {| buffering := buffering s; pending := pending s; wr := wr s; waiters := waiters s; pkt := pkt s;
+     wire := wire s; closed := closed s; shut := shut s; failing := failing s; next_sid := next_sid s;
+     table := table s; rtable := rtable s; ralive := ralive s; tasks := tasks s; lin := lin s;
+     dq := dq s; pushed := pushed s; pump_owner := pump_owner s; pump_done := pump_done s; stalled := true |}.
+(* close(): `timeout(1 s, writer.shutdown())` under the writer lock. On a stalled transport the shutdown stays
+   pending, the timer fires and close() returns with the transport NOT shut down *)
+Definition shutdown_tr (s : state) : state := if stalled s then s else set_shut s.
 
 Definition set_queue (s : state) (p : list witem) (l : list witem) : state :=
   {| buffering := buffering s; pending := p; wr := wr s; waiters := waiters s; pkt := pkt s;
      wire := wire s; closed := closed s; shut := shut s; failing := failing s; next_sid := next_sid s;
      table := table s; rtable := rtable s; ralive := ralive s; tasks := tasks s; lin := l;
-     dq := dq s; pushed := pushed s; pump_owner := pump_owner s; pump_done := pump_done s |}.
+     dq := dq s; pushed := pushed s; pump_owner := pump_owner s; pump_done := pump_done s; stalled := stalled s |}.
 Definition set_lock (s : state) (w : option tid) (ws : list tid) : state :=
   {| buffering := buffering s; pending := pending s; wr := w; waiters := ws; pkt := pkt s;
      wire := wire s; closed := closed s; shut := shut s; failing := failing s; next_sid := next_sid s;
      table := table s; rtable := rtable s; ralive := ralive s; tasks := tasks s; lin := lin s;
-     dq := dq s; pushed := pushed s; pump_owner := pump_owner s; pump_done := pump_done s |}.
+     dq := dq s; pushed := pushed s; pump_owner := pump_owner s; pump_done := pump_done s; stalled := stalled s |}.
 Definition set_wire (s : state) (k : N) (w : list (N * list witem)) : state :=
   {| buffering := buffering s; pending := pending s; wr := wr s; waiters := waiters s; pkt := k;
      wire := w; closed := closed s; shut := shut s; failing := failing s; next_sid := next_sid s;
      table := table s; rtable := rtable s; ralive := ralive s; tasks := tasks s; lin := lin s;
-     dq := dq s; pushed := pushed s; pump_owner := pump_owner s; pump_done := pump_done s |}.
+     dq := dq s; pushed := pushed s; pump_owner := pump_owner s; pump_done := pump_done s; stalled := stalled s |}.
 Definition set_table (s : state) (n : N) (tb : list (N * tid)) : state :=
   {| buffering := buffering s; pending := pending s; wr := wr s; waiters := waiters s; pkt := pkt s;
      wire := wire s; closed := closed s; shut := shut s; failing := failing s; next_sid := n;
      table := tb; rtable := rtable s; ralive := ralive s; tasks := tasks s; lin := lin s;
-     dq := dq s; pushed := pushed s; pump_owner := pump_owner s; pump_done := pump_done s |}.
+     dq := dq s; pushed := pushed s; pump_owner := pump_owner s; pump_done := pump_done s; stalled := stalled s |}.
 
 Definition set_rtable (s : state) (n : N) (rtb : list (N * tid)) : state :=
   {| buffering := buffering s; pending := pending s; wr := wr s; waiters := waiters s; pkt := pkt s;
      wire := wire s; closed := closed s; shut := shut s; failing := failing s; next_sid := n;
      table := table s; rtable := rtb; ralive := ralive s; tasks := tasks s; lin := lin s;
-     dq := dq s; pushed := pushed s; pump_owner := pump_owner s; pump_done := pump_done s |}.
+     dq := dq s; pushed := pushed s; pump_owner := pump_owner s; pump_done := pump_done s; stalled := stalled s |}.
 
 (* ---- close(): what the finished close returns into ---- *)
 Definition finish_close (s : state) (t : tid) (a : after) (k : wk) : state :=
@@ -225,7 +235,7 @@ Fixpoint release_ws (ws : list tid) (s : state) : state :=
   | w :: ws' =>
       match t_pc (tasks s w) with
       | PW2wait k f => set_pc (set_lock s (Some w) ws') w (PW3 k f)
-      | PC2wait a k => release_ws ws' (finish_close (set_shut s) w a k)
+      | PC2wait a k => release_ws ws' (finish_close (shutdown_tr s) w a k)
       | _ => set_lock s None []          (* unreachable: only waiting tasks are queued *)
       end
   end.
@@ -380,6 +390,7 @@ Definition start_call (s : state) (t : tid) (c : call) (rest : list call) : opti
   | CDisableBuf => Some (finish (set_buffering s0 false) t ResOk)
   | CEnableBuf => Some (finish (set_buffering s0 true) t ResOk)
   | CFail => Some (finish (set_failing s0) t ResOk)
+  | CStall => Some (finish (set_stalled s0) t ResOk)
   | CFeed ev => if Nat.eqb t rtid then Some (finish s0 t ResOk)      (* the receive task does not feed itself *)
                else Some (finish (feed_ev s0 ev) t ResOk)
   | CSend d =>
@@ -431,6 +442,9 @@ Definition step (s : state) (t : tid) : option state :=
       Some (set_pc (set_queue s [] (lin s ++ [(t, f)])) t (PW4 k (pending s ++ [(t, f)])))
   | PW4 k held =>
       let n := pkt s + 1 in
+      (* `writer.write_all(..).await` on a transport whose peer has stopped reading never returns: the task stays
+         here, HOLDING the writer mutex (nothing bounds this await: known finding F4) *)
+      if stalled s && negb (shut s) then None else     (* after a shutdown the write fails at once *)
       if failing s || shut s
       then Some (set_pc (release (set_wire s n (wire s))) t (PE0 AfterIoErr k))
       else Some (finish_w (release (set_wire s n (wire s ++ [(n, held)]))) t k ResOk)
@@ -441,7 +455,7 @@ Definition step (s : state) (t : tid) : option state :=
       Some (set_pc (drain_state s1) t (PC2 a k))
   | PC2 a k =>
       match wr s with
-      | None => Some (finish_close (set_shut s) t a k)
+      | None => Some (finish_close (shutdown_tr s) t a k)
       | Some _ => Some (set_pc (set_lock s (wr s) (waiters s ++ [t])) t (PC2wait a k))
       end
   | PC2wait _ _ => None
@@ -467,6 +481,6 @@ Definition init (progs : list (list call)) (buf : bool) (pend : list witem) : st
      wire := []; closed := false; shut := false; failing := false;
      next_sid := client_first_stream_id; table := []; rtable := []; ralive := true;
      tasks := fun t => idle_task (nth t progs []); lin := pend;
-     dq := []; pushed := []; pump_owner := None; pump_done := false |}.
+     dq := []; pushed := []; pump_owner := None; pump_done := false; stalled := false |}.
 
 Definition flat_wire (s : state) : list witem := concat (map snd (wire s)).
